@@ -56,8 +56,8 @@ MEANINGS = [
 ]
 
 
-def manifest(outputs=("cpp", "python", "json", "matlab")):
-    s = "namespace: Main\nimports:\n  - ../lib\n"
+def manifest(outputs=("cpp", "python", "json", "matlab"), libdir="lib"):
+    s = "namespace: Main\nimports:\n  - ../%s\n" % libdir
     if "cpp" in outputs:
         s += "cpp:\n  sourcesOutputDir: ../out/cpp\n  generateHDF5: false\n  generateCMakeLists: false\n"
     if "python" in outputs:
@@ -72,10 +72,10 @@ def manifest(outputs=("cpp", "python", "json", "matlab")):
 LIB_ALONE = "LibRec: !record\n  fields:\n    x: int\n    y: string*\n"
 
 
-def write_tree(root, variant=0, outputs=("cpp", "python", "json", "matlab"), lib=LIB, single_import=False):
+def write_tree(root, variant=0, outputs=("cpp", "python", "json", "matlab"), lib=LIB, single_import=False, libdir="lib"):
     files = {"base/_package.yml": "namespace: Base\n", "base/base.yml": BASE,
-             "lib/_package.yml": "namespace: Lib\nimports:\n  - ../base\n", "lib/lib.yml": lib,
-             "main/_package.yml": manifest(outputs), "main/model.yml": model(variant)}
+             libdir + "/_package.yml": "namespace: Lib\nimports:\n  - %s../base\n" % ("../" * libdir.count("/")), libdir + "/lib.yml": lib,
+             "main/_package.yml": manifest(outputs, libdir), "main/model.yml": model(variant)}
     if single_import:
         # the package under watch references exactly one other package
         files = {"lib/_package.yml": "namespace: Lib\n", "lib/lib.yml": LIB_ALONE if lib == LIB else lib,
@@ -262,6 +262,9 @@ def schedules(quick):
         ("first-generation-save-rename", "regen.validated#1=1200", [(150, "model", 1, "rename")]),
         ("first-generation-two-saves", "regen.validated#1=1200", [(150, "model", 1, "inplace"), (100, "model", 2, "inplace")]),
         ("first-generation-manifest-drop", "regen.validated#1=1200", [(150, "manifest-drop", 1, "inplace")]),
+        # "prefix-": paths that begin like the path of an output directory without being inside it
+        ("prefix-import-dir-named-like-output-dir-edited-last", "", [(0, "model", 1, "inplace"), (400, "lib", 2, "inplace")]),
+        ("prefix-import-dir-named-like-output-dir-edited-rename", "", [(0, "lib", 1, "rename"), (400, "model", 2, "rename"), (400, "lib", 3, "rename")]),
         # a subdirectory is created and the regeneration that this triggers is held after it has read the package; the first model file of the new
         # directory is saved meanwhile, and nothing is saved afterwards
         ("forced-new-subdir-file-during-regeneration", "regen.validated#2=1200", [(0, "mkdir-sub", 1, ""), (400, "sub-file", 2, "inplace")]),
@@ -307,9 +310,11 @@ def run(ctx):
     def one(item):
         name, delays, steps = item
         single = name.startswith("single-import")
+        # "prefix-": the imported package lives in a directory whose path begins like the path of an output directory (../out/pythonlib next to ../out/python)
+        libdir = "out/pythonlib" if name.startswith("prefix-") else "lib"
         root = os.path.join(ctx.workdir, "cases", name)
         shutil.rmtree(root, ignore_errors=True)
-        write_tree(root, 0, single_import=single)
+        write_tree(root, 0, single_import=single, libdir=libdir)
         if name.startswith("subdir-"):
             common.write_tree(root, {"main/sub/deep/extra.yml": "SubFile0: !record\n  fields:\n    z: int\n", "lib/more/extra.yml": "LibSub0: !record\n  fields:\n    z: int\n"})
         if name.startswith("startbad-lib"):
@@ -368,7 +373,7 @@ def run(ctx):
                     final_invalid = True
                 elif kind == "lib":
                     lib_text = (LIB_ALONE if single else LIB) + "LibExtra%d: !record\n  fields:\n    q: int\n" % v
-                    save(os.path.join(root, "lib/lib.yml"), lib_text, how)
+                    save(os.path.join(root, libdir, "lib.yml"), lib_text, how)
                 elif kind == "base-good":
                     save(os.path.join(root, "base/base.yml"), BASE, how)
                 elif kind == "lib-invalid":
@@ -487,7 +492,7 @@ def run(ctx):
             # reference: one-shot generate of the final contents in a fresh tree
             ref = os.path.join(root, "ref")
             shutil.rmtree(ref, ignore_errors=True)
-            write_tree(ref, final_variant, cur_outputs, lib_text, single_import=single)
+            write_tree(ref, final_variant, cur_outputs, lib_text, single_import=single, libdir=libdir)
             if final_model_text is not None:
                 common.write_tree(ref, {"main/model.yml": final_model_text})
             if final_manifest_text is not None:
